@@ -871,6 +871,36 @@ Fixpoint truncate (k : nat) (s : string) : string :=
 
 (* which cell a cast into dtype d produces; `py` = the value is a Python object (assignment of a scalar or of
    list elements), otherwise a cell of an ndarray (astype / array-to-array copy, which never range-checks) *)
+(* text cells: float('13'), float('-1.5'), int('13') convert; int('13.5') and words do not.  The literals the harness uses are
+   [-]digits, [-]digits.0, [-]digits.5 (halves are exact); everything else counts as non-numeric text *)
+Fixpoint parse_nat_acc (s : string) (acc : Z) : option Z :=
+  match s with
+  | EmptyString => Some acc
+  | String c r => let n := Ascii.nat_of_ascii c in
+                  if (Nat.leb 48 n && Nat.leb n 57)%bool then parse_nat_acc r (10 * acc + Z.of_nat (n - 48)) else None
+  end.
+Definition parse_nat (s : string) : option Z := match s with EmptyString => None | _ => parse_nat_acc s 0%Z end.
+Fixpoint split_dot (s : string) : string * option string :=
+  match s with
+  | EmptyString => (EmptyString, None)
+  | String c r => if Ascii.eqb c "."%char then (EmptyString, Some r)
+                  else let (a, f) := split_dot r in (String c a, f)
+  end.
+Definition parse_signed (f : string -> option Z) (s : string) : option Z :=
+  match s with
+  | String c r => if Ascii.eqb c "-"%char then option_map Z.opp (f r) else f s
+  | EmptyString => None
+  end.
+Definition parse_int (s : string) : option Z := parse_signed parse_nat s.
+Definition parse_half (s : string) : option Z :=          (* twice the value *)
+  parse_signed (fun b => let (a, f) := split_dot b in
+                         match parse_nat a, f with
+                         | Some n, None => Some (2 * n)%Z
+                         | Some n, Some fr => if String.eqb fr "0" then Some (2 * n)%Z
+                                              else if String.eqb fr "5" then Some (2 * n + 1)%Z else None
+                         | None, _ => None
+                         end) s.
+
 Definition np_cast (py : bool) (d : dtype) (v : pyval) : outcome pyval :=
   match d with
   | DFloat =>
@@ -878,7 +908,11 @@ Definition np_cast (py : bool) (d : dtype) (v : pyval) : outcome pyval :=
       | PInt z => Ret (PFlt (FHalf (2 * z)))
       | PFlt f => Ret (PFlt f)
       | PBool b => Ret (PFlt (FHalf (if b then 2 else 0)))
-      | PStr _ => Raise ValueError                      (* non-numeric text *)
+      | PStr x => match parse_half x with                                                                  (* float(text) *)
+                  | Some z => Ret (PFlt (FHalf z))
+                  | None => if String.eqb x "nan" then Ret (PFlt FNaN) else if String.eqb x "inf" then Ret (PFlt FPInf)
+                            else if String.eqb x "-inf" then Ret (PFlt FNInf) else Raise ValueError
+                  end
       | PNone => Ret (PFlt FNaN)
       end
   | DInt =>
@@ -888,7 +922,7 @@ Definition np_cast (py : bool) (d : dtype) (v : pyval) : outcome pyval :=
       | PFlt FNaN => if py then Raise ValueError else Ret (PInt INT_MIN)
       | PFlt _ => if py then Raise OverflowError else Ret (PInt INT_MIN)
       | PBool b => Ret (PInt (if b then 1 else 0))
-      | PStr _ => Raise ValueError
+      | PStr x => match parse_int x with Some z => Ret (PInt z) | None => Raise ValueError end            (* int(text) *)
       | PNone => Raise TypeError
       end
   | DBool => Ret (PBool (truthy_val v))
